@@ -391,6 +391,32 @@ def check_matrix(ctx):
             T, N = rng.randint(8, 30), rng.randint(1, 4)
             data = np.array([[rng.randint(-20, 20) / 4.0 for _ in range(N)]
                              for _ in range(T)])
+            # tie-heavy data (zero-inflated, discrete counts): quantiles
+            # coincide with each other and with the median
+            if rng.random() < 0.4:
+                data = np.array([[rng.choice([0, 0, 0, 0, 1, 2, 3]) * 1.0
+                                  for _ in range(N)] for _ in range(T)])
+            # direction left to the library: beyond the stated quantile means
+            # above it for a level >= 1/2 and below it otherwise
+            q = rng.randint(1, 19) / 20.0
+            try:
+                with warnings.catch_warnings():
+                    warnings.simplefilter("ignore")
+                    got = E.make_event_matrix(data,
+                                              threshold_method="quantile",
+                                              threshold_values=q)
+                thr = np.quantile(data, q, axis=0)
+                want = (data > thr) if q >= 0.5 else (data < thr)
+                ctx.evaluations += 1
+                if not np.array_equal(np.asarray(got).astype(bool), want):
+                    ctx.violation("EventSeries.make_event_matrix(quantile)",
+                                  "without threshold_types does not mark the "
+                                  "samples beyond the stated quantile (above "
+                                  "for a level >= 1/2, below otherwise)",
+                                  {"data": data.tolist(), "quantile": q,
+                                   "type": None}, {"default_type": True})
+            except OSError:
+                ctx.stat("threshold value rejected")
             for ttype in ("above", "below"):
                 v = rng.randint(-10, 10) / 4.0
                 try:
